@@ -1501,6 +1501,29 @@ def emit_ann_assign(node):""", """                        self.replaced = True
 
 
 def emit_ann_assign(node):""")]),
+    # ---- VISIT-4 scope-prefix clause (C11, C15)
+    dict(id="visit4-coroutine-is-no-scope", kind=B, props=["C11", "C15"], expect="VISIT-4", edits=[("ast_utils.py",
+         """        name = [_node.name] if hasattr(_node, "name") else []""",
+         """        name = [_node.name] if isinstance(_node, (ClassDef, FunctionDef)) else []""")]),
+    dict(id="visit4-neutral-scope-by-getattr", kind=N, props=["C11", "C15"], expect="silent", edits=[("ast_utils.py",
+         """        name = [_node.name] if hasattr(_node, "name") else []""",
+         """        name = [_node.name] if getattr(_node, "name", None) is not None or hasattr(_node, "name") else []""")]),
+    # ---- VISIT-8 (C10)
+    dict(id="visit8-decorators-copied-onto-replacement", kind=B, props=["C10"], expect="VISIT-8", edits=[("ast_utils.py",
+         """            self.replaced = True
+            return self.replacement_node
+        else:""", """            self.replaced = True
+            if getattr(node, "decorator_list", None) and hasattr(self.replacement_node, "decorator_list"):
+                self.replacement_node.decorator_list = node.decorator_list
+            return self.replacement_node
+        else:""")]),
+    dict(id="visit8-neutral-replacement-through-local", kind=N, props=["C10"], expect="silent", edits=[("ast_utils.py",
+         """            self.replaced = True
+            return self.replacement_node
+        else:""", """            self.replaced = True
+            replacement = self.replacement_node
+            return replacement
+        else:""")]),
     # ---- PARAM-KEPT (C07, C03)
     dict(id="paramkept-return-type-popped-in-merge", kind=B, props=["C07", "C03"], expect="PARAM-KEPT", edits=[("parser_utils.py",
          """    if "return_type" not in (target.get("returns") or iter(())):""",
